@@ -76,7 +76,7 @@ theorem zero_peak_entry (pvals : List ℚ) (zvals : Option (List ℚ)) (m : Int)
     getZeroAndPeakArrayIndices [] zvals m = .error .IndexError ∧
     (pvals ≠ [] → getZeroAndPeakArrayIndices pvals (some []) m = .error .IndexError) ∧
     (pvals ≠ [] → (zvals.getD pvals) ≠ [] → getZeroAndPeakArrayIndices pvals zvals m =
-      zeroPeakCore ((Model.Switched.switchedPeaks pvals 0).map Int.ofNat)
+      zeroPeakCore ((Model.Switched.switchedPeaksOut pvals 0).map Int.ofNat)
         ((Model.Switched.zeroCrossings (zvals.getD pvals) false 0).map Int.ofNat) m) := by
   refine ⟨rfl, rfl, ?_, ?_⟩
   · intro h
